@@ -780,6 +780,9 @@ class Engine:
                 if self.nonnull(st, p):
                     regs[inst.id] = int(pred == 'ne')
                     return None
+                if p.base.startswith(('tok:', 'sum:')) and st.ghost.get(('zero', p.base)):
+                    regs[inst.id] = int(pred == 'eq')          # this opaque integer was already found to be 0 on this path
+                    return None
                 # fork: p is NULL / p is not NULL
                 s_nn = st
                 s_null = st.fork()
@@ -791,7 +794,8 @@ class Engine:
                     s_null.ghost[('zero', p.base)] = 1          # an opaque integer token was found equal to 0 on this path
                 if p.base.startswith('heap:') and not p.path:
                     s_null.ghost.pop(('alloc', p.base), None)   # the allocation failed on this path: there is no block to account for
-                self.replace_value(s_null, p, 0)
+                if not p.base.startswith(('tok:', 'sum:')):
+                    self.replace_value(s_null, p, 0)          # (an opaque integer keeps its name - the ghost records that it is 0)
                 fz.regs[inst.id] = int(pred == 'eq')
                 fz.idx += 1
                 return [s_nn, s_null]
@@ -1210,9 +1214,13 @@ class Engine:
             return [st]
         c = st.top
         call = f.call
-        c.regs[call.id] = v if v is not None else TOP
+        c.regs[call.id] = self.inlined_result(st, f.fn, call, v if v is not None else TOP)
         c.idx += 1
         return [st]
+
+    def inlined_result(self, st, fn, call, v):
+        """extension point: the value an interpreted callee hands back to its call site"""
+        return v
 
     def exec_call(self, st, f, inst):
         callee = inst.callee
